@@ -391,6 +391,12 @@ class Gen:
             self.cases.append(mk_b64(bs))
             for shp in (shapes_w2x if i % 8 == 0 else [rng.choice(shapes_w2x)]):
                 self.add(f'TYPED W2X {shp} {hx(opaque(bs))}', 'any', expect_ok_bytes(b64), 'bin-w2x')
+            if i % 4 == 0:
+                # the rule belongs to the element, not to the code page in force when the opaque arrives: a page
+                # switch (grammatical as part of an extension, which these languages ignore) in front of it
+                for shp in [f'{lid} E {self.nonce[lid]}' for lid in LANG_SYNCML if self.nonce[lid]]:
+                    self.add(f'TYPED W2X {shp} {hx(bytes([0, 0, rng.choice([0xC0, 0xC1, 0xC2])]) + opaque(bs))}', 'any', expect_ok_bytes(b64), 'oracle-only-page-switch:nonce')
+                self.add(f'TYPED W2X {LANG_DRMREL} E {self.keyvalue} {hx(bytes([0, 1, 0xC0]) + opaque(bs))}', 'any', expect_ok_bytes(b64), 'oracle-only-page-switch:keyvalue')
             shp = rng.choice(bin_shapes)
             self.add(f'TYPED X2W {shp} {hx(b64)}', 'any', expect_ok_bytes(opaque(bs)), 'bin-x2w')
             self.add(f'TYPED RT {shp} {hx(b64)}', 'any', expect_ok_bytes(b64), 'bin-rt')
@@ -628,6 +634,7 @@ def run(res, args):
 
     kinds, errs = {}, {}
     diffs, oracle_fail = [], []
+    oracle_only = 0
     for i, c in enumerate(cases):
         kinds[c.kind.split(':')[0]] = kinds.get(c.kind.split(':')[0], 0) + 1
         res.add_eval(c.line)
@@ -643,8 +650,14 @@ def run(res, args):
             msg = msg or 'harness could not build or read the minimal document'
         if msg:
             oracle_fail.append((i, msg))
-        if r != mod[i]:
+        if c.kind.startswith('oracle-only'):
+            # the item-level model (Model/Typed) has no code-page state: the element is a parameter of its decoding
+            # functions, which is exactly the rule; what the whole parser does with a page switch in front of the
+            # opaque is the parser model's business (C04's PARSE correspondence + specgen). Here: oracle on the code.
+            oracle_only += 1
+        elif r != mod[i]:
             diffs.append(i)
+    res.coverage['oracle_only_lines'] = oracle_only
     res.coverage['lines_by_kind'] = kinds
     res.coverage['impl_answers_by_class'] = errs
     res.coverage['traces_validated_against_impl'] = len(cases) - len(diffs)
